@@ -455,11 +455,18 @@ func (x *Decimal) Float(z *big.Float) *big.Float {
 	// increase precision
 	z.SetPrec(p + 1)
 
+	// The result must not depend on how many low-order zero Words the
+	// mantissa happens to carry: convert the significant Words only.
+	mant := x.mant
+	for len(mant) > 1 && mant[0] == 0 {
+		mant = mant[1:]
+	}
+
 	// big.Float has no SetBits. Need to use a temp Int.
 	var i big.Int
-	i.SetBits(decToNat(nil, x.mant))
+	i.SetBits(decToNat(nil, mant))
 
-	m := len(x.mant) * _DW
+	m := len(mant) * _DW
 	exp := int64(x.exp) - int64(m)
 	z = z.SetInt(&i)
 	if x.neg {
